@@ -58,9 +58,9 @@ Definition u21 (l : list int) : str := flat_map (unpack_int 3 21%uint63 2097151%
 """
 CASE_TY = "Rows.case"
 
-QUICK_CASES, THOROUGH_CASES = 500, 6000
+QUICK_CASES, THOROUGH_CASES = 400, 6000
 QUICK_STRESS_S, THOROUGH_STRESS_S = 4.0, 60.0
-QUICK_RENDER, THOROUGH_RENDER = 120, 1200
+QUICK_RENDER, THOROUGH_RENDER = 80, 1200
 
 BASE_DT = _dt.datetime(2024, 1, 2, 3, 4, 5)
 NOW_DT = _dt.datetime(2024, 1, 5, 0, 0, 0)
@@ -1107,7 +1107,7 @@ def known_hits(ck, usable):
         if newline:
             cand_n.append((c, o))
     # corpus first, then a bounded sample
-    cand_c, cand_n = cand_c[:150], cand_n[:150]
+    cand_c, cand_n = cand_c[:60], cand_n[:60]
     hits = {}
     for kid, cand, fn in ((KNOWN_COMMA, cand_c, "case_known_comma"), (KNOWN_NEWLINE, cand_n, "case_known_newline")):
         if not cand:
@@ -1125,7 +1125,14 @@ def known_hits(ck, usable):
 def run(ck):
     shutil.rmtree(WORKDIR, ignore_errors=True)
     os.makedirs(WORKDIR)
+    phases, t_ph = {}, [time.time()]
+
+    def phase(name):
+        phases[name] = round(time.time() - t_ph[0], 1)
+        t_ph[0] = time.time()
+    ck.notes["phase_seconds"] = phases
     ck.build_proofs()
+    phase("proofs")
     rng = random.Random(ck.seed)
     thorough = ck.tier == "thorough"
 
@@ -1145,7 +1152,9 @@ def run(ck):
         stream = "plain" if r < 2 else ("exotic" if r >= 7 else "valid")
         cases.append(gen_case(rng, stream))
     obs = observe(cases)
+    phase("implementation")
     usable = classify(ck, "C12", obs)
+    phase("coq-cases")
 
     # (a') execution histories: status.csv after every poll (+ stored failing histories first)
     hobs = []
@@ -1153,7 +1162,9 @@ def run(ck):
         hobs.extend(replay_history(hc))
     more, hstat = history_polls(rng, THOROUGH_HIST if thorough else QUICK_HIST)
     hobs.extend(more)
+    phase("histories-implementation")
     husable = classify_hist(ck, "C12_hist", hobs)
+    phase("coq-histories")
     ck.notes["histories"] = hstat
 
     hist = {"stream": {}, "instances": {}, "shape": {}, "parsed": {}, "params_per_row": {}, "jobids": {},
@@ -1202,6 +1213,7 @@ def run(ck):
             else:
                 ck.violation("unregistered finding: " + what_default, None)
 
+    phase("known-findings")
     # (c) renderers on in-H12 tables
     nrender = THOROUGH_RENDER if thorough else QUICK_RENDER
     rendered = 0
@@ -1226,8 +1238,10 @@ def run(ck):
                              "seconds": round(time.time() - t_r, 1)}
     ck.count("renderers", nontrivial=False, n=rendered)
 
+    phase("renderers")
     # (b') Timeout branches against the model (thorough: the code's real 10 s)
     check_timeout_scenario(ck, real_timeout=thorough)
+    phase("timeout-scenario")
 
     # (b) the real lock
     secs = THOROUGH_STRESS_S if thorough else QUICK_STRESS_S
@@ -1240,6 +1254,7 @@ def run(ck):
     elif summary.get("reads", 0) == 0 or summary.get("writes", 0) == 0:
         ck.mismatch("the lock stress run made no progress", None, json.dumps(summary))
     ck.count("lock-stress", nontrivial=False, n=summary.get("reads", 0))
+    phase("lock-stress")
 
     ck.cov["rule"] = (
         "case = DAG shape (chain/fan/funnel/diamond/layers/random; edges added while staging or afterwards in "
